@@ -98,6 +98,14 @@ def run_one(args):
     # slot distribution is per process deterministic given the same input -> reuse the recorded one (node ids
     # coincide between runs when depots are given; with default depots the depot indices are permuted, which
     # does not affect activity ids)
+    # the tracks of a slot are allotted to the types: together never more than the slot has, only to slots
+    over = []
+    for m in sorted({m for t in slots.values() for m in t}):
+        tot = sum(t.get(m, 0) for t in slots.values())
+        tracks = obs.nodes.get(m, {}).get("tracks")
+        if tracks in (None, "-") or tot > int(tracks):
+            over.append("%s: allotted %d of %s tracks" % (m, tot, tracks))
+    res["slot_over"] = over
     pr = inst["parameters"]
     data = {"ntypes": obs.ntypes, "nodes": obs.nodes, "reach": {a: sorted(b) for a, b in obs.reach.items()},
             "svc": {str(t): v for t, v in obs.svc.items()}, "slots": slots, "req": obs.req, "maxform": obs.maxform,
@@ -125,6 +133,8 @@ def failures(pid, inst, r):
         return [("checker-crash", r["dstatus"][:300])]
     if r["netdiff"]:
         bad.append(("flow-network-differs-from-model", r["netdiff"]))
+    if r.get("slot_over"):
+        bad.append(("slots-allotted-beyond-tracks", "; ".join(r["slot_over"])))
     for ty, kv in r["flow"].items():
         if kv["spawn_model"] != kv["spawn_impl"]:
             bad.append(("flow-network-differs-from-model", "spawning cost model %s impl %s" % (kv["spawn_model"], kv["spawn_impl"])))
